@@ -69,13 +69,24 @@ class HTTP11Connection(ConnectionInterface):
                 f"to {self._origin}"
             )
 
-        with self._state_lock:
-            if self._state in (HTTPConnectionState.NEW, HTTPConnectionState.IDLE):
-                self._request_count += 1
-                self._state = HTTPConnectionState.ACTIVE
-                self._expire_at = None
-            else:
-                raise ConnectionNotAvailable()
+        try:
+            with self._state_lock:
+                if self._state in (HTTPConnectionState.NEW, HTTPConnectionState.IDLE):
+                    self._request_count += 1
+                    self._state = HTTPConnectionState.ACTIVE
+                    self._expire_at = None
+                else:
+                    raise ConnectionNotAvailable()
+        except ConnectionNotAvailable:
+            raise
+        except BaseException:
+            # Cancelled while waiting for the lock. A connection that has
+            # never been used is of no use to anybody else: it is neither
+            # idle nor available. Close it, so that the pool can drop it.
+            if self._state == HTTPConnectionState.NEW:
+                with ShieldCancellation():
+                    self.close()
+            raise
 
         try:
             kwargs = {"request": request}
